@@ -41,6 +41,7 @@ def impl_fn(case):
         # (no set_params after the max_time change: it would re-evaluate the distributions and hide a stale pmf)
         m = impl.build_uni_via_other_max_time(case)
     else:
+        impl.prime_twin_relisted(case)
         m = impl.build_uni(case)
         impl.prime_params(m, case, lambda mm: (mm.state_dist_evo(), mm.transition_matrix()))
     out = {"evo": m.state_dist_evo().tolist()}
